@@ -21,7 +21,6 @@ func SendAccountDebitRequest(
 	ue *chf_context.ChfUe,
 	ccr *charging_datatype.AccountDebitRequest,
 ) (*charging_datatype.AccountDebitResponse, error) {
-	ue.AbmfMux.Handle("CCA", HandleCCA(ue.AcctChan))
 	abmfDiameter := factory.ChfConfig.Configuration.AbmfDiameter
 	addr := abmfDiameter.HostIPv4 + ":" + strconv.Itoa(abmfDiameter.Port)
 	conn, err := ue.AbmfClient.DialNetworkTLS(abmfDiameter.Protocol, addr, abmfDiameter.Tls.Pem, abmfDiameter.Tls.Key)
@@ -30,6 +29,11 @@ func SendAccountDebitRequest(
 	}
 	// one connection per request: do not leave it (and its watchdog and reader tasks) behind
 	defer conn.Close()
+
+	// Only an answer arriving on this request's own connection is this request's answer; it is
+	// handed over without ever blocking the reader (a late answer finds nobody waiting).
+	answer := make(chan *diam.Message, 1)
+	ue.AbmfMux.Handle("CCA", HandleCCA(conn, answer))
 
 	meta, ok := smpeer.FromContext(conn.Context())
 	if !ok {
@@ -53,7 +57,7 @@ func SendAccountDebitRequest(
 	}
 
 	select {
-	case m := <-ue.AcctChan:
+	case m := <-answer:
 		var cca charging_datatype.AccountDebitResponse
 		if errMarshal := m.Unmarshal(&cca); err != nil {
 			return nil, fmt.Errorf("Failed to parse message from %v", errMarshal)
@@ -65,10 +69,18 @@ func SendAccountDebitRequest(
 	}
 }
 
-func HandleCCA(abmfChan chan *diam.Message) diam.HandlerFunc {
+func HandleCCA(conn diam.Conn, abmfChan chan *diam.Message) diam.HandlerFunc {
 	return func(c diam.Conn, m *diam.Message) {
 		logger.AcctLog.Tracef("Received CCA from %s", c.RemoteAddr())
 
-		abmfChan <- m
+		if c != conn {
+			logger.AcctLog.Warnf("Discard CCA received on the connection of an earlier request")
+			return
+		}
+		select {
+		case abmfChan <- m:
+		default:
+			logger.AcctLog.Warnf("Discard CCA: the request is no longer waiting")
+		}
 	}
 }
